@@ -88,6 +88,15 @@ def run(ctx):
     projects = [proj.gen_project(rng) for _ in range(ctx.budget(600, 12000))]
     generic_pipeline_check(ctx, [("I18nVerif.Theorems.C11", "C11_"), ("I18nVerif.Theorems.C11Full", "C11_"), ("I18nVerif.Theorems.C11Pipeline", "C11_")], projects, oracle, "C11")
     c11json.run_json_part(ctx)
+    # the other way the tables reach the client: embedded in the server-rendered page (C17's harness and judgement): each unit's
+    # table must decode to exactly the strings the accessors index
+    from . import c17
+    binr = cargo_build(ctx, "runtime_dyn_h")
+    if binr is not None:
+        names = c17.get_names(ctx, binr)
+        ecases = list(c17.CORPUS) + [c17.gen_case(rng) for _ in range(ctx.budget(400, 6000))]
+        c17.check_cases(ctx, binr, names, ecases, count=False)
+        ctx.count("embedded_table_cases", len(ecases))
     ctx.assumptions += PARSER_ASSUMPTIONS
     finish_broken(ctx, f"{len(projects)} projects + JSON export projects")
     write_evidence(ctx, RULE + " || " + c11json.RULE)
